@@ -134,6 +134,10 @@ pub trait Prop: Sync + Send + 'static {
     fn max_shrink_iters(&self) -> u32 {
         8192
     }
+    /// Evaluate every 256th generated case on a newly spawned thread.
+    fn fresh_thread_cases(&self) -> bool {
+        true
+    }
     /// Repeat a share of the run in a fresh process in which the harness never calls
     /// `RoundingMode::set_default` (see `pristine()`).
     fn pristine_run(&self) -> bool {
@@ -803,6 +807,7 @@ pub fn run_prop<P: Prop>(prop: P, opts: &Opts) -> ! {
             let prev_case: RefCell<Option<P::Case>> = RefCell::new(None);
             let mixed_fail: RefCell<Option<(P::Case, Vec<Failure>)>> = RefCell::new(None);
             let mixed_count = std::cell::Cell::new(0u64);
+            let fresh_thread_cases = std::cell::Cell::new(0u64);
             let first_fail: RefCell<Option<(P::Case, Vec<Failure>)>> = RefCell::new(None);
             let cfg = Config {
                 cases: per as u32,
@@ -868,14 +873,31 @@ pub fn run_prop<P: Prop>(prop: P, opts: &Opts) -> ! {
                     }
                     wd.push_back(case.clone());
                 }
-                let r = catch(|| {
-                    if failed.get() {
-                        // shrinking: do not count
-                        eval_case(&*prop, &known, &case, None)
-                    } else {
-                        eval_case(&*prop, &known, &case, Some(&mut stats.borrow_mut()))
-                    }
-                });
+                let r = if !failed.get() && invocations.get() % 256 == 17 && prop.fresh_thread_cases() {
+                    // every 256th case runs on a thread of its own: per-thread state of the code under
+                    // test (lazily initialised tables, memos, the thread's rounding mode) is in its
+                    // initial condition there, which the long-lived worker thread never is again
+                    fresh_thread_cases.set(fresh_thread_cases.get() + 1);
+                    let mut st = stats.borrow_mut();
+                    let (prop_r, known_r, case_c, st_r) = (&*prop, &known, case.clone(), &mut *st);
+                    std::thread::scope(|sc| {
+                        sc.spawn(move || {
+                            install_silent_panic_hook();
+                            catch(|| eval_case(prop_r, known_r, &case_c, Some(st_r)))
+                        })
+                        .join()
+                        .unwrap_or_else(|_| Err("the fresh evaluation thread died".to_string()))
+                    })
+                } else {
+                    catch(|| {
+                        if failed.get() {
+                            // shrinking: do not count
+                            eval_case(&*prop, &known, &case, None)
+                        } else {
+                            eval_case(&*prop, &known, &case, Some(&mut stats.borrow_mut()))
+                        }
+                    })
+                };
                 let real = match r {
                     Ok(v) => v,
                     Err(m) => {
@@ -915,7 +937,21 @@ pub fn run_prop<P: Prop>(prop: P, opts: &Opts) -> ! {
                             }
                         },
                         None => {
-                            let real = eval_case(&*prop, &known, &min_case, None);
+                            let mut min_case = min_case;
+                            let mut real = eval_case(&*prop, &known, &min_case, None);
+                            if real.is_empty() {
+                                // found on a fresh thread (per-thread state in its initial condition)?
+                                // then it shows alone on a fresh thread, not on this long-lived worker
+                                let first = first_fail.borrow().clone();
+                                if let Some((_, r)) = eval_history(&prop, &known, std::slice::from_ref(&min_case)) {
+                                    real = r;
+                                } else if let Some((c, _)) = first {
+                                    if let Some((_, r)) = eval_history(&prop, &known, std::slice::from_ref(&c)) {
+                                        min_case = c;
+                                        real = r;
+                                    }
+                                }
+                            }
                             (min_case, real)
                         }
                     };
@@ -978,15 +1014,17 @@ pub fn run_prop<P: Prop>(prop: P, opts: &Opts) -> ! {
                 }
             }
             let st = stats.into_inner();
-            (st, invocations.get(), failed.get(), mixed_count.get())
+            (st, invocations.get(), failed.get(), mixed_count.get(), fresh_thread_cases.get())
         }));
     }
     let mut generated = 0u64;
     let mut follow_ups = 0u64;
+    let mut fresh_threads = 0u64;
     for h in handles {
         match h.join() {
-            Ok((st, inv, failed, mixed_n)) => {
+            Ok((st, inv, failed, mixed_n, fresh_n)) => {
                 follow_ups += mixed_n;
+                fresh_threads += fresh_n;
                 if !failed && inv < per {
                     println!("INCONCLUSIVE: a worker executed {inv} of {per} cases (runner executed too few cases)");
                     std::process::exit(2);
@@ -1210,6 +1248,10 @@ pub fn run_prop<P: Prop>(prop: P, opts: &Opts) -> ! {
     cov.insert("samples".into(), samples.into());
     cov.insert("operations_checked".into(), total.subs.into());
     cov.insert("generated".into(), generated.into());
+    cov.insert(
+        "cases_on_a_fresh_thread".into(),
+        serde_json::json!({"count": fresh_threads, "what": "every 256th generated case of a worker is evaluated on a newly spawned thread (per-thread state of the code under test in its initial condition)"}),
+    );
     if follow_ups > 0 {
         cov.insert(
             "follow_up_cases".into(),
